@@ -67,12 +67,15 @@ func runCharHist(em *Emitter, hid int, h Hist, seed int64) (hung bool) {
 		objs[i] = h.Objs[i].Recipe()
 	}
 	call := 0
+	curMT := h.MaxTrials // the attempt limit the caller has configured at this point of the history (0: the default)
 	for si, st := range h.Steps {
 		if st.Obj < 0 || st.Obj >= len(objs) {
 			continue
 		}
 		r := &objs[st.Obj]
 		switch st.Op {
+		case "setlimits": // the caller configures another attempt limit between two calls (Process!SetLimits)
+			curMT = st.Ival
 		case "fault": // the random source fails during one Generate call (at read Idx, after Ival bytes); the caller recovers the panic
 			failingCall(func() { r.Generate() }, seed+int64(si), st.Idx, st.Ival)
 			processFaulted = true
@@ -119,7 +122,7 @@ func runCharHist(em *Emitter, hid int, h Hist, seed int64) (hung bool) {
 					snaps[i] = CharSpecOf(objs[i])
 				}
 				spec := snaps[st.Obj]
-				sc := Scenario{Kind: "char", Char: &spec, MaxTrials: h.MaxTrials, FailRateOne: h.FailRateOne, Mode: "paths", Paths: st.Paths,
+				sc := Scenario{Kind: "char", Char: &spec, MaxTrials: curMT, FailRateOne: h.FailRateOne, Mode: "paths", Paths: st.Paths,
 					Tag: fmt.Sprintf("%s#%d.%d", h.Tag, hid, si)}
 				s := seed*1000003 + int64(hid)*1009 + int64(si)
 				evs := charCellEvents(hid*1000+si, sc, s, r)
@@ -214,11 +217,14 @@ func runWLHist(em *Emitter, hid int, h Hist, seed int64) (hung bool) {
 		}
 		objs[i] = &r
 	}
+	curMT := h.MaxTrials
 	for si, st := range h.Steps {
 		if st.Obj < 0 || st.Obj >= len(objs) {
 			continue
 		}
 		switch st.Op {
+		case "setlimits":
+			curMT = st.Ival
 		case "fault":
 			failingCall(func() { objs[st.Obj].Generate() }, seed+int64(si), st.Idx, st.Ival)
 			processFaulted = true
@@ -243,7 +249,7 @@ func runWLHist(em *Emitter, hid int, h Hist, seed int64) (hung bool) {
 			si, st := si, st
 			if !afterFault(processFaulted, func() {
 				spec := specs[st.Obj]
-				sc := Scenario{Kind: "wl", WL: &spec, MaxTrials: h.MaxTrials, FailRateOne: h.FailRateOne, Mode: "paths", Paths: st.Paths,
+				sc := Scenario{Kind: "wl", WL: &spec, MaxTrials: curMT, FailRateOne: h.FailRateOne, Mode: "paths", Paths: st.Paths,
 					Tag: fmt.Sprintf("%s#%d.%d", h.Tag, hid, si)}
 				s := seed*1000003 + int64(hid)*1009 + int64(si)
 				evs := wlCellEvents(hid*1000+si, sc, s, objs[st.Obj], wl)
